@@ -87,6 +87,7 @@ type Snap struct {
 
 type Window struct {
 	Cmd     Cmd  `json:"cmd"`
+	Busy    bool `json:"busy"` // free runs (free.go): the library was not known to be at rest when the window was recorded
 	Skipped bool `json:"skipped"`
 	Done    []Ev `json:"done"`
 	Q       Snap `json:"q"`
